@@ -4,7 +4,8 @@ Trace == ndJsonDeserialize("trace.ndjson")
 VARIABLES l, nrej
 TraceInit == l = 1 /\ nrej = 0
 Step == /\ l <= Len(Trace)
-        /\ LET r == IF Trace[l].ev = "Pair" THEN PairReasons(Trace[l]) ELSE {} IN
+        /\ LET X == IF Trace[1].ev = "ExtraPairs" THEN Trace[1].pairs ELSE <<>>
+               r == IF Trace[l].ev = "Pair" THEN PairReasons(Trace[l]) \cup ExtraReasons(Trace[l], X) ELSE {} IN
              IF r = {} THEN nrej' = nrej ELSE PrintT(<<"REJECT", l, r>>) /\ nrej' = nrej + 1
         /\ l' = l + 1
 Done == l = Len(Trace) + 1 /\ PrintT(<<"DONE", Len(Trace), nrej>>) /\ l' = l + 1 /\ UNCHANGED nrej
